@@ -64,6 +64,19 @@ pub struct NetStats {
     pub clock_advances: u64,
 }
 
+/// What the executor did, in order (recorded only if `Net::trace_on`; added for C20, which feeds the
+/// recorded schedule to the Lean model). `frame` = 1-based number of the transmitted frame
+/// (`stats.frames_sent` at the time it was sent).
+#[derive(Clone, Debug, PartialEq, Eq)]
+pub enum ExecEvent {
+    /// Task number polled by `run_many`.
+    Poll(usize),
+    /// A frame was taken from the MainDevice and given its fate (the segment processed it now, if at all).
+    Sent { frame: u64 },
+    /// A response was handed to `PduRx::receive_frame`; `ok` = it returned `Ok`.
+    Delivered { frame: u64, ok: bool },
+}
+
 /// The network side of one MainDevice: TX/RX handles, the segment, in-flight responses.
 pub struct Net {
     pub tx: PduTx<'static>,
@@ -73,12 +86,20 @@ pub struct Net {
     pub latency_us: u64,
     /// Decides the fate of every transmitted frame (None: `Fate::Deliver`).
     pub fate: Option<Box<dyn FnMut(&[u8]) -> Fate>>,
+    /// Called right after the segment processed a frame (every fate that lets the segment see it):
+    /// `(segment, request bytes, response bytes)`. May rewrite the response (e.g. alter a working
+    /// counter, as a faulty wire would) and poke the segment (e.g. make a device drop out from the
+    /// next frame on). None: nothing is touched. (Added for C10/C11.)
+    pub tap: Option<Box<dyn FnMut(&mut Segment, &[u8], &mut Vec<u8>)>>,
     /// Every frame as transmitted (only if `record_tx`).
     pub record_tx: bool,
     pub sent: Vec<Vec<u8>>,
     /// Results of `receive_frame` that were errors (late duplicates etc.), as debug strings.
     pub rx_errors: Vec<String>,
-    in_flight: Vec<(u64, u64, Vec<u8>)>,
+    /// Record [`ExecEvent`]s into `trace`.
+    pub trace_on: bool,
+    pub trace: Vec<ExecEvent>,
+    in_flight: Vec<(u64, u64, Vec<u8>, u64)>,
     seq: u64,
     pub step_limit: u64,
     pub stats: NetStats,
@@ -119,9 +140,12 @@ impl Net {
                 seg,
                 latency_us: 0,
                 fate: None,
+                tap: None,
                 record_tx: false,
                 sent: Vec::new(),
                 rx_errors: Vec::new(),
+                trace_on: false,
+                trace: Vec::new(),
                 in_flight: Vec::new(),
                 seq: 0,
                 step_limit: 5_000_000,
@@ -162,6 +186,9 @@ impl Net {
             });
             n += 1;
             self.stats.frames_sent += 1;
+            if self.trace_on {
+                self.trace.push(ExecEvent::Sent { frame: self.stats.frames_sent });
+            }
             let fate = match self.fate.as_mut() {
                 Some(f) => f(&bytes),
                 None => Fate::Deliver,
@@ -174,19 +201,19 @@ impl Net {
             match fate {
                 Fate::LoseRequest => self.stats.frames_lost += 1,
                 Fate::LoseResponse => {
-                    let _ = self.seg.process_frame(&bytes);
+                    let _ = self.process(&bytes);
                     self.stats.frames_lost += 1;
                 }
                 Fate::Deliver => {
-                    let r = self.seg.process_frame(&bytes);
+                    let r = self.process(&bytes);
                     self.queue(now + self.latency_us, r);
                 }
                 Fate::Delay(d) => {
-                    let r = self.seg.process_frame(&bytes);
+                    let r = self.process(&bytes);
                     self.queue(now + d, r);
                 }
                 Fate::Duplicate(d1, d2) => {
-                    let r = self.seg.process_frame(&bytes);
+                    let r = self.process(&bytes);
                     self.queue(now + d1, r.clone());
                     self.queue(now + d2, r);
                 }
@@ -196,19 +223,27 @@ impl Net {
         n
     }
 
+    fn process(&mut self, bytes: &[u8]) -> Vec<u8> {
+        let mut r = self.seg.process_frame(bytes);
+        if let Some(tap) = self.tap.as_mut() {
+            tap(&mut self.seg, bytes, &mut r);
+        }
+        r
+    }
+
     fn queue(&mut self, due: u64, bytes: Vec<u8>) {
         if bytes.is_empty() {
             self.stats.frames_lost += 1;
             return;
         }
         self.seq += 1;
-        self.in_flight.push((due, self.seq, bytes));
+        self.in_flight.push((due, self.seq, bytes, self.stats.frames_sent));
     }
 
     /// Deliver every response whose time has come (in order of due time, then of transmission).
     pub fn deliver_due(&mut self) -> usize {
         let now = clock::now();
-        let mut due: Vec<(u64, u64, Vec<u8>)> = Vec::new();
+        let mut due: Vec<(u64, u64, Vec<u8>, u64)> = Vec::new();
         let mut i = 0;
         while i < self.in_flight.len() {
             if self.in_flight[i].0 <= now {
@@ -219,13 +254,20 @@ impl Net {
         }
         due.sort_by_key(|x| (x.0, x.1));
         let n = due.len();
-        for (_, _, bytes) in due {
-            match self.rx.receive_frame(&bytes) {
-                Ok(_) => self.stats.frames_delivered += 1,
+        for (_, _, bytes, frame) in due {
+            let ok = match self.rx.receive_frame(&bytes) {
+                Ok(_) => {
+                    self.stats.frames_delivered += 1;
+                    true
+                }
                 Err(e) => {
                     self.stats.receive_errors += 1;
                     self.rx_errors.push(format!("{e:?}"));
+                    false
                 }
+            };
+            if self.trace_on {
+                self.trace.push(ExecEvent::Delivered { frame, ok });
             }
         }
         n
@@ -268,6 +310,9 @@ pub fn run_many<'a, T>(
             flags[i].0.store(false, Ordering::SeqCst);
             let mut cx = Context::from_waker(&wakers[i]);
             net.stats.polls += 1;
+            if net.trace_on {
+                net.trace.push(ExecEvent::Poll(i));
+            }
             if let Poll::Ready(v) = tasks[i].as_mut().poll(&mut cx) {
                 results[i] = Some(v);
                 done += 1;
